@@ -5,6 +5,7 @@ package conc
 import (
 	"context"
 	"fmt"
+	"strings"
 	"sync"
 	"testing"
 	"testing/synctest"
@@ -82,6 +83,9 @@ var treeKeys = [][2]string{{"a", "x"}, {"a", "y"}, {"b", "x"}, {"b", "y"}}
 var treeLabels = []map[string]string{nil, {"l": "1"}, {"l": "2", "t": "q"}, {"l": "1", "t": "q"}}
 
 func (w *treeWorld) hook(component, format string) {
+	if time.Now().Year() > 2200 {
+		panic("virtual time ran away: " + time.Now().String() + " at " + component + " " + format)
+	}
 	if !w.perturb {
 		return
 	}
@@ -207,18 +211,35 @@ func (w *treeWorld) attach(kinds []string) {
 	w.nodes = append(w.nodes, n)
 	w.tr.line(kv.L("attach", fmt.Sprint(n.id), fmt.Sprint(p.id), kind, fsx))
 	w.tr.stats["act:attach-"+kind]++
-	if w.mode == "stall" && n.events != nil && w.r.Chance(1, 2) {
+	if (w.mode == "stall" || w.mode == "overflow") && (n.events != nil || n.mlog != nil) && w.r.Chance(1, 2) {
 		n.stalled = true
+		if n.mlog != nil {
+			n.mlog.mu.Lock()
+			n.mlog.block = make(chan struct{})
+			n.mlog.mu.Unlock()
+		}
 		w.tr.line(kv.L("stall", fmt.Sprint(n.id)))
 		w.tr.stats["act:stall"]++
 	}
 }
 
+func (w *treeWorld) release(n *tnode) {
+	n.stalled = false
+	if n.mlog != nil {
+		n.mlog.mu.Lock()
+		if n.mlog.block != nil {
+			close(n.mlog.block)
+			n.mlog.block = nil
+		}
+		n.mlog.mu.Unlock()
+	}
+	w.tr.line(kv.L("unstall", fmt.Sprint(n.id)))
+}
+
 func (w *treeWorld) unstall() {
 	for _, n := range w.nodes {
 		if n.stalled && w.r.Chance(1, 2) {
-			n.stalled = false
-			w.tr.line(kv.L("unstall", fmt.Sprint(n.id)))
+			w.release(n)
 			return
 		}
 	}
@@ -255,7 +276,11 @@ func (w *treeWorld) burst(kinds []string) {
 func (ml *monLog) add(t string, o metav1.Object) {
 	ml.mu.Lock()
 	ml.entries = append(ml.entries, kv.L(t, kv.Describe(o).Sx()))
+	block := ml.block
 	ml.mu.Unlock()
+	if block != nil {
+		<-block // a handler that does not return (stalled consumer)
+	}
 }
 
 func (w *treeWorld) refilter() {
@@ -373,8 +398,10 @@ func runTreeScenario(t *testing.T, tr *tracer, idx int, seed uint64, mode string
 	synctest.Test(t, func(t *testing.T) {
 		r := kv.NewRand(seed*1000003 + uint64(idx))
 		if mode == "" {
-			mode = []string{"step", "step", "burst", "burst", "stall"}[r.Intn(5)]
+			mode = "step,step,burst,burst,stall,overflow"
 		}
+		modes := strings.Split(mode, ",")
+		mode = modes[r.Intn(len(modes))]
 		w := &treeWorld{tr: tr, r: r, srv: kv.NewServer(), perturb: r.Chance(2, 3), mode: mode}
 		w.ctx, w.cancel = context.WithCancel(context.Background())
 		tr.line(kv.L("scenario", fmt.Sprint(idx), mode))
@@ -417,6 +444,32 @@ func runTreeScenario(t *testing.T, tr *tracer, idx int, seed uint64, mode string
 			})
 		}
 		steps := 8 + r.Intn(14)
+		if mode == "overflow" {
+			// a few consumers, some of them stalled, and a stream several times the buffer size, paced
+			// in floods of at most EventBufsiz/4 events; stalled nodes are closed or released at the end
+			for i := 2 + r.Intn(4); i > 0; i-- {
+				w.step(func() { w.attach(kinds) })
+			}
+			floods := 7 + r.Intn(8)
+			for i := 0; i < floods; i++ {
+				w.step(w.flood)
+				if r.Chance(1, 6) {
+					w.step(func() { w.attach(kinds) })
+				}
+				if r.Chance(1, 6) {
+					w.step(w.refilter)
+				}
+			}
+			if r.Chance(1, 2) {
+				w.step(w.closeNode)
+				w.step(w.flood)
+			}
+			if r.Chance(1, 2) {
+				w.step(w.unstall)
+				w.step(w.flood)
+			}
+			steps = 0
+		}
 		for i := 0; i < steps; i++ {
 			if mode == "burst" && r.Chance(1, 2) {
 				w.step(func() { w.burst(kinds) })
@@ -462,8 +515,7 @@ func runTreeScenario(t *testing.T, tr *tracer, idx int, seed uint64, mode string
 		for _, n := range w.nodes {
 			n.closed = true
 			if n.stalled {
-				n.stalled = false
-				tr.line(kv.L("unstall", fmt.Sprint(n.id)))
+				w.release(n)
 			}
 		}
 		w.wait()
